@@ -41,6 +41,8 @@ def run(check: Check, repo: Repo, tier: str) -> None:
     LR.lexer_accounting(check, repo)
     LR.loc_single_source(check, repo)
     LR.render_total(check, repo)
+    LR.loc_prefix(check, repo)
+    LR.loc_offset(check, repo)
     # controls for LT-AGREE
     from sa.report import Check as _C
     for name, expected in (("lt_bad", True), ("lt_ok", False)):
